@@ -1,5 +1,639 @@
-//! C11 — not implemented yet.
+//! C11 — square roots and quadratic-residue tests are exact (fields and curve-coordinate helpers).
+#[path = "../../c02/src/orc.rs"]
+mod orc;
+#[path = "../../c02/src/toy_cfg.rs"]
+mod toy_cfg;
+
+use ark_ec::models::short_weierstrass::{Affine as SwAffine, SWCurveConfig};
+use ark_ec::models::twisted_edwards::{Affine as TeAffine, TECurveConfig};
+use ark_ff::fields::fp6_2over3 as f6q;
+use ark_ff::fields::{Fp, Fp2, Fp3, Fp4, LegendreSymbol, MontBackend};
+use num_bigint::BigUint;
+use num_traits::{One, Zero};
+use orc::*;
+use std::cmp::Ordering;
+use std::sync::{Arc, OnceLock};
+use vh_core::engine::{no_panic, Obs, PropSpec, Rel, Tape, Tier, R};
+use vh_core::gen::{big_below, edge_value};
+use vh_core::tower::{Elem, OracleRepr};
+use vh_core::{ensure, fail};
+
+// ---------------------------------------------------------------------------------------------
+// oracle side
+// ---------------------------------------------------------------------------------------------
+
+fn flat(e: &Elem, out: &mut Vec<BigUint>) {
+    match e {
+        Elem::P(x) => out.push(x.clone()),
+        Elem::E(v) => v.iter().for_each(|x| flat(x, out)),
+    }
+}
+
+fn show(e: &Elem) -> String {
+    let mut v = Vec::new();
+    flat(e, &mut v);
+    let s: Vec<String> = v.iter().map(|x| format!("0x{:x}", x)).collect();
+    format!("[{}]", s.join(", "))
+}
+
+/// the documented lexicographic order: integers for a prime field; for extensions the highest coefficient is the
+/// most significant (c1 before c0, c2 before c1 before c0), recursively
+fn ocmp(a: &Elem, b: &Elem) -> Ordering {
+    let (mut x, mut y) = (Vec::new(), Vec::new());
+    flat(a, &mut x);
+    flat(b, &mut y);
+    x.reverse();
+    y.reverse();
+    x.cmp(&y)
+}
+
+/// per-field constants found by the oracle: a quadratic non-residue n, q - 1 = 2^s * t, zeta = n^t (order exactly 2^s)
+struct K {
+    n: Elem,
+    s: u32,
+    zeta: Elem,
+}
+
+struct Fld {
+    c: Arc<Ctx>,
+    k: OnceLock<K>,
+}
+
+impl Fld {
+    fn new<F: OracleRepr>(name: &str) -> Arc<Fld> {
+        Arc::new(Fld { c: Ctx::new::<F>(name), k: OnceLock::new() })
+    }
+    fn k(&self) -> &K {
+        self.k.get_or_init(|| {
+            let c = &self.c;
+            let tw = &c.tw;
+            // smallest non-residue among k (prime field) / e_i + k (extensions)
+            let mut n = None;
+            'outer: for k in 0u32..200 {
+                for i in (if c.d == 1 { 0 } else { 1 })..c.d {
+                    let cand = if c.d == 1 { tw.from_int(&BigUint::from(k)) } else { tw.add(&c.basis(i), &tw.from_int(&BigUint::from(k))) };
+                    if !tw.is_zero(&cand) && !c.euler_is_square(&cand) {
+                        n = Some(cand);
+                        break 'outer;
+                    }
+                }
+            }
+            let n = n.expect("a quadratic non-residue among the first candidates");
+            let q1 = tw.order() - 1u32;
+            let s = q1.trailing_zeros().unwrap() as u32;
+            let t = &q1 >> (s as usize);
+            let zeta = tw.pow(&n, &t);
+            K { n, s, zeta }
+        })
+    }
+    /// x^(2^s) == 1
+    fn has_two_power_order(&self, x: &Elem) -> bool {
+        let mut y = x.clone();
+        for _ in 0..self.k().s {
+            y = self.c.tw.mul(&y, &y);
+        }
+        self.c.is_one(&y)
+    }
+    fn in_proper_subfield(&self, x: &Elem) -> bool {
+        if self.c.d == 1 {
+            return false;
+        }
+        let mut v = Vec::new();
+        flat(x, &mut v);
+        v[self.c.base_d..].iter().all(|z| z.is_zero())
+    }
+}
+
+/// exponent j of zeta: 1 (order 2^s, non-residue), 2 (residue with the maximal number of rounds), 2^m, odd, arbitrary
+fn gen_j(t: &mut Tape<'_>, s: u32) -> BigUint {
+    let top = BigUint::one() << (s as usize);
+    match t.weighted(&[2, 3, 2, 2, 2]) {
+        0 => BigUint::one(),
+        1 => BigUint::from(2u32) % &top,
+        2 => BigUint::one() << (t.below(s as u64) as usize),
+        3 => (big_below(t, &top) | BigUint::one()) % &top,
+        _ => big_below(t, &top),
+    }
+}
+
+/// (element, class, constructed-with-2-power-order)
+fn gen_input(t: &mut Tape<'_>, f: &Fld) -> (Elem, &'static str, bool) {
+    let c = &f.c;
+    let tw = &c.tw;
+    match t.weighted(&[1, 1, 1, 4, 4, 4, 3, 3, 3]) {
+        0 => (tw.zero(), "zero", false),
+        1 => (tw.one(), "one", false),
+        2 => (tw.neg(&tw.one()), "minus-one", false),
+        3 => {
+            let (e, _) = gen_elem(t, c);
+            (e, "arbitrary", false)
+        },
+        4 => {
+            let (s, _) = gen_elem(t, c);
+            (tw.mul(&s, &s), "square", false)
+        },
+        5 => {
+            let (s, _) = gen_nonzero(t, c);
+            (tw.mul(&f.k().n, &tw.mul(&s, &s)), "nonresidue*square", false)
+        },
+        6 => {
+            let k = f.k();
+            (tw.pow(&k.zeta, &gen_j(t, k.s)), "zeta^j", true)
+        },
+        7 => {
+            let k = f.k();
+            let (s, _) = gen_nonzero(t, c);
+            (tw.mul(&tw.pow(&k.zeta, &gen_j(t, k.s)), &tw.mul(&s, &s)), "zeta^j*square", false)
+        },
+        _ => {
+            if c.d == 1 {
+                let (e, _) = gen_elem(t, c);
+                return (e, "arbitrary", false);
+            }
+            let m = c.prefixes[t.idx(c.prefixes.len())];
+            let mut co = vec![BigUint::zero(); c.d];
+            for x in co.iter_mut().take(m) {
+                *x = edge_value(t, &c.prime).0;
+            }
+            (tw.unflatten(&co), "subfield-element", false)
+        },
+    }
+}
+
+// ---------------------------------------------------------------------------------------------
+// field relations
+// ---------------------------------------------------------------------------------------------
+
+fn sqrt_on<F: OracleRepr>(f: &Fld, xe: &Elem, two_power: bool, o: &mut Obs) -> R {
+    let c = &f.c;
+    let tw = &c.tw;
+    let x = F::from_o(xe);
+    let zero = tw.is_zero(xe);
+    let sq = c.euler_is_square(xe);
+    let sub = f.in_proper_subfield(xe);
+    o.nt(!zero && !c.is_one(xe) && (!sq || sub || two_power));
+    o.class_if(!sq, "non-residue");
+    o.class_if(sq && !zero, "residue");
+    o.class_if(sub && !zero, "in-proper-subfield");
+    o.class_if(two_power, "2-power-order");
+    o.evals(4);
+
+    // Legendre symbol vs Euler's criterion
+    let want = if zero {
+        LegendreSymbol::Zero
+    } else if sq {
+        LegendreSymbol::QuadraticResidue
+    } else {
+        LegendreSymbol::QuadraticNonResidue
+    };
+    let got = no_panic("legendre", || x.legendre())?;
+    ensure!(got == want, "legendre", "legendre({}) = {:?}, Euler's criterion says {:?}", show(xe), got, want);
+    ensure!(got.is_zero() == zero && got.is_qr() == (sq && !zero) && got.is_qnr() == !sq, "legendre.predicates", "is_zero/is_qr/is_qnr inconsistent for {:?}", got);
+
+    // sqrt
+    match no_panic("sqrt", || x.sqrt())? {
+        Some(r) => {
+            ensure!(sq, "sqrt.some-for-non-residue", "sqrt({}) = Some({}) but x^((q-1)/2) != 1", show(xe), show(&r.to_o()));
+            ensure!(r.canonical(), "sqrt.noncanonical", "root with a coordinate >= p: {:?}", r);
+            let re = r.to_o();
+            ensure!(tw.mul(&re, &re) == *xe, "sqrt.wrong-root", "sqrt({}) = {} whose square is {}", show(xe), show(&re), show(&tw.mul(&re, &re)));
+            if zero {
+                ensure!(tw.is_zero(&re), "sqrt.zero", "sqrt(0) = {}", show(&re));
+            }
+        },
+        None => ensure!(!sq, "sqrt.none-for-square", "sqrt({}) = None but x^((q-1)/2) = 1{}", show(xe), if zero { " (x = 0)" } else { "" }),
+    }
+    // sqrt_in_place
+    let mut y = x;
+    let r = no_panic("sqrt_in_place", || y.sqrt_in_place().is_some())?;
+    if r {
+        ensure!(sq, "sqrt_in_place.some-for-non-residue", "sqrt_in_place({}) succeeded for a non-residue", show(xe));
+        let ye = y.to_o();
+        ensure!(y.canonical() && tw.mul(&ye, &ye) == *xe, "sqrt_in_place.wrong-root", "sqrt_in_place({}) left {}", show(xe), show(&ye));
+    } else {
+        ensure!(!sq, "sqrt_in_place.none-for-square", "sqrt_in_place({}) = None for a square", show(xe));
+    }
+    Ok(())
+}
+
+fn sqrt_rel<F: OracleRepr>(f: &Fld, t: &mut Tape<'_>, o: &mut Obs) -> R {
+    let (xe, cls, tp) = gen_input(t, f);
+    o.show(|| format!("{}: x={} [{}]", f.c.name, show(&xe), cls));
+    o.class(cls);
+    sqrt_on::<F>(f, &xe, tp, o)
+}
+
+/// exact mode: tape = the d coordinates of x
+fn sqrt_all<F: OracleRepr>(f: &Fld, t: &mut Tape<'_>, o: &mut Obs) -> R {
+    let p = f.c.p.to_u64_digits()[0];
+    let co: Vec<BigUint> = (0..f.c.d).map(|_| BigUint::from(t.below(p))).collect();
+    let xe = f.c.tw.unflatten(&co);
+    o.show(|| format!("{}: x={}", f.c.name, show(&xe)));
+    let tp = !f.c.tw.is_zero(&xe) && f.has_two_power_order(&xe);
+    sqrt_on::<F>(f, &xe, tp, o)
+}
+
+fn all_tapes(p: u64, n: usize) -> Box<dyn Iterator<Item = Vec<u64>>> {
+    let total = p.pow(n as u32);
+    Box::new((0..total).map(move |mut i| {
+        let mut v = Vec::with_capacity(n);
+        for _ in 0..n {
+            v.push(i % p);
+            i /= p;
+        }
+        v
+    }))
+}
+
+fn words(f: &Fld) -> usize {
+    3 * f.c.d * (f.c.prime.n + 6) + 24
+}
+
+fn field_rels<F: OracleRepr>(out: &mut Vec<Rel>, name: &str, cases: u32) {
+    let f = Fld::new::<F>(name);
+    let w = words(&f);
+    out.push(Rel::new(format!("sqrt/{}", name), cases, w, move |t, o| sqrt_rel::<F>(&f, t, o)).shrink_iters(600));
+}
+
+fn field_all<F: OracleRepr>(out: &mut Vec<Rel>, name: &str) {
+    let f = Fld::new::<F>(name);
+    let p = f.c.p.to_u64_digits()[0];
+    let d = f.c.d;
+    out.push(Rel::new(format!("sqrt-all/{}", name), 0, d, move |t, o| sqrt_all::<F>(&f, t, o)).exhaustive(move || all_tapes(p, d)));
+}
+
+// ---------------------------------------------------------------------------------------------
+// curve-coordinate helpers
+// ---------------------------------------------------------------------------------------------
+
+struct Crv {
+    f: Arc<Fld>,
+    name: String,
+    /// (a, b) for short Weierstrass, (a, d) for twisted Edwards
+    k0: Elem,
+    k1: Elem,
+    /// coordinate of the configured generator that the helper takes as input
+    gen: Elem,
+}
+
+fn max_of(tw: &vh_core::tower::Tower, y: &Elem) -> (Elem, Elem) {
+    let n = tw.neg(y);
+    if ocmp(y, &n) == Ordering::Greater {
+        (n, y.clone())
+    } else {
+        (y.clone(), n)
+    }
+}
+
+fn sw_on<P: SWCurveConfig>(cv: &Crv, xe: &Elem, o: &mut Obs) -> R
+where
+    P::BaseField: OracleRepr,
+{
+    let c = &cv.f.c;
+    let tw = &c.tw;
+    // g(x) = x^3 + a x + b
+    let g = tw.add(&tw.add(&tw.mul(&tw.mul(xe, xe), xe), &tw.mul(&cv.k0, xe)), &cv.k1);
+    let sq = c.euler_is_square(&g);
+    let x = P::BaseField::from_o(xe);
+    o.nt(!sq || tw.is_zero(&g) || cv.f.in_proper_subfield(&g));
+    o.class_if(!sq, "x-off-curve");
+    o.class_if(sq, "x-on-curve");
+    o.class_if(tw.is_zero(&g), "g(x)=0");
+    o.evals(3);
+    match no_panic("get_ys_from_x_unchecked", || SwAffine::<P>::get_ys_from_x_unchecked(x))? {
+        Some((y0, y1)) => {
+            ensure!(sq, "get_ys.some-off-curve", "x={}: Some(..) but x^3+ax+b = {} is a non-residue", show(xe), show(&g));
+            ensure!(y0.canonical() && y1.canonical(), "get_ys.noncanonical", "non canonical coordinates");
+            let (e0, e1) = (y0.to_o(), y1.to_o());
+            ensure!(tw.mul(&e0, &e0) == g, "get_ys.not-on-curve", "x={}: y0={} but y0^2 != x^3+ax+b = {}", show(xe), show(&e0), show(&g));
+            ensure!(e1 == tw.neg(&e0), "get_ys.not-negatives", "x={}: y0={} y1={}", show(xe), show(&e0), show(&e1));
+            ensure!(ocmp(&e0, &e1) != Ordering::Greater, "get_ys.order", "x={}: (y0, y1) = ({}, {}) is not sorted", show(xe), show(&e0), show(&e1));
+        },
+        None => ensure!(!sq, "get_ys.none-on-curve", "x={}: None but x^3+ax+b = {} is a square", show(xe), show(&g)),
+    }
+    for greatest in [false, true] {
+        match no_panic("get_point_from_x_unchecked", || SwAffine::<P>::get_point_from_x_unchecked(x, greatest))? {
+            Some(pt) => {
+                ensure!(sq, "get_point_from_x.some-off-curve", "x={}: Some(..) for a non-residue", show(xe));
+                ensure!(!pt.infinity && pt.x.to_o() == *xe, "get_point_from_x.x", "x={}: point has x={} infinity={}", show(xe), show(&pt.x.to_o()), pt.infinity);
+                let ye = pt.y.to_o();
+                ensure!(pt.y.canonical() && tw.mul(&ye, &ye) == g, "get_point_from_x.not-on-curve", "x={}: y={}", show(xe), show(&ye));
+                let (lo, hi) = max_of(tw, &ye);
+                let want = if greatest { hi } else { lo };
+                ensure!(ye == want, "get_point_from_x.choice", "x={} greatest={}: got y={} expected {}", show(xe), greatest, show(&ye), show(&want));
+            },
+            None => ensure!(!sq, "get_point_from_x.none-on-curve", "x={}: None for a square", show(xe)),
+        }
+    }
+    Ok(())
+}
+
+fn gen_coord(t: &mut Tape<'_>, cv: &Crv) -> (Elem, &'static str) {
+    let c = &cv.f.c;
+    let tw = &c.tw;
+    match t.weighted(&[1, 2, 2, 8]) {
+        0 => (tw.zero(), "zero"),
+        1 => (cv.gen.clone(), "generator-coordinate"),
+        2 => (tw.add(&cv.gen, &tw.from_int(&BigUint::from(1 + t.below(64)))), "near-generator"),
+        _ => {
+            let (e, _) = gen_elem(t, c);
+            (e, "arbitrary")
+        },
+    }
+}
+
+fn sw_rel<P: SWCurveConfig>(cv: &Crv, t: &mut Tape<'_>, o: &mut Obs) -> R
+where
+    P::BaseField: OracleRepr,
+{
+    let (xe, cls) = gen_coord(t, cv);
+    o.show(|| format!("{}: x={} [{}]", cv.name, show(&xe), cls));
+    o.class(cls);
+    sw_on::<P>(cv, &xe, o)
+}
+
+fn te_on<P: TECurveConfig>(cv: &Crv, ye: &Elem, o: &mut Obs) -> R
+where
+    P::BaseField: OracleRepr,
+{
+    let c = &cv.f.c;
+    let tw = &c.tw;
+    // x^2 (a - d y^2) = 1 - y^2
+    let y2 = tw.mul(ye, ye);
+    let num = tw.sub(&tw.one(), &y2);
+    let den = tw.sub(&cv.k0, &tw.mul(&cv.k1, &y2));
+    let y = P::BaseField::from_o(ye);
+    // den = 0: no x at all (num != 0 then, as a != d); otherwise x^2 = num / den
+    let x2 = c.inv(&den).map(|i| tw.mul(&num, &i));
+    if x2.is_none() && tw.is_zero(&num) {
+        // a = d: degenerate, not a twisted Edwards curve
+        return fail("oracle.degenerate-curve", "a - d y^2 = 0 and 1 - y^2 = 0");
+    }
+    let sq = x2.as_ref().map(|v| c.euler_is_square(v)).unwrap_or(false);
+    o.nt(!sq || x2.as_ref().map(|v| tw.is_zero(v)).unwrap_or(false));
+    o.class_if(!sq, "y-off-curve");
+    o.class_if(sq, "y-on-curve");
+    o.class_if(x2.is_none(), "a-dy^2=0");
+    o.evals(3);
+    let on_curve = |xe: &Elem| {
+        let xx = tw.mul(xe, xe);
+        tw.add(&tw.mul(&cv.k0, &xx), &y2) == tw.add(&tw.one(), &tw.mul(&cv.k1, &tw.mul(&xx, &y2)))
+    };
+    match no_panic("get_xs_from_y_unchecked", || TeAffine::<P>::get_xs_from_y_unchecked(y))? {
+        Some((x0, x1)) => {
+            ensure!(sq, "get_xs.some-off-curve", "y={}: Some(..) but (1-y^2)/(a-dy^2) is not a square", show(ye));
+            ensure!(x0.canonical() && x1.canonical(), "get_xs.noncanonical", "non canonical coordinates");
+            let (e0, e1) = (x0.to_o(), x1.to_o());
+            ensure!(on_curve(&e0), "get_xs.not-on-curve", "y={}: x0={} does not satisfy the curve equation", show(ye), show(&e0));
+            ensure!(e1 == tw.neg(&e0), "get_xs.not-negatives", "y={}: x0={} x1={}", show(ye), show(&e0), show(&e1));
+            ensure!(ocmp(&e0, &e1) != Ordering::Greater, "get_xs.order", "y={}: (x0, x1) = ({}, {}) is not sorted", show(ye), show(&e0), show(&e1));
+        },
+        None => ensure!(!sq, "get_xs.none-on-curve", "y={}: None but x^2 = {} is a square", show(ye), show(x2.as_ref().unwrap())),
+    }
+    for greatest in [false, true] {
+        match no_panic("get_point_from_y_unchecked", || TeAffine::<P>::get_point_from_y_unchecked(y, greatest))? {
+            Some(pt) => {
+                ensure!(sq, "get_point_from_y.some-off-curve", "y={}: Some(..) for a non-residue", show(ye));
+                ensure!(pt.y.to_o() == *ye, "get_point_from_y.y", "y={}: point has y={}", show(ye), show(&pt.y.to_o()));
+                let xe = pt.x.to_o();
+                ensure!(pt.x.canonical() && on_curve(&xe), "get_point_from_y.not-on-curve", "y={}: x={}", show(ye), show(&xe));
+                let (lo, hi) = max_of(tw, &xe);
+                let want = if greatest { hi } else { lo };
+                ensure!(xe == want, "get_point_from_y.choice", "y={} greatest={}: got x={} expected {}", show(ye), greatest, show(&xe), show(&want));
+            },
+            None => ensure!(!sq, "get_point_from_y.none-on-curve", "y={}: None for a square", show(ye)),
+        }
+    }
+    Ok(())
+}
+
+fn te_rel<P: TECurveConfig>(cv: &Crv, t: &mut Tape<'_>, o: &mut Obs) -> R
+where
+    P::BaseField: OracleRepr,
+{
+    let (ye, cls) = if t.chance(1, 8) {
+        let one = cv.f.c.tw.one();
+        if t.bool() {
+            (one, "one")
+        } else {
+            (cv.f.c.tw.neg(&one), "minus-one")
+        }
+    } else {
+        gen_coord(t, cv)
+    };
+    o.show(|| format!("{}: y={} [{}]", cv.name, show(&ye), cls));
+    o.class(cls);
+    te_on::<P>(cv, &ye, o)
+}
+
+fn sw_crv<P: SWCurveConfig>(name: &str) -> Arc<Crv>
+where
+    P::BaseField: OracleRepr,
+{
+    Arc::new(Crv {
+        f: Fld::new::<P::BaseField>(name),
+        name: name.to_string(),
+        k0: P::COEFF_A.to_o(),
+        k1: P::COEFF_B.to_o(),
+        gen: P::GENERATOR.x.to_o(),
+    })
+}
+
+fn te_crv<P: TECurveConfig>(name: &str) -> Arc<Crv>
+where
+    P::BaseField: OracleRepr,
+{
+    Arc::new(Crv {
+        f: Fld::new::<P::BaseField>(name),
+        name: name.to_string(),
+        k0: P::COEFF_A.to_o(),
+        k1: P::COEFF_D.to_o(),
+        gen: P::GENERATOR.y.to_o(),
+    })
+}
+
+fn sw_rels<P: SWCurveConfig>(out: &mut Vec<Rel>, name: &str, cases: u32)
+where
+    P::BaseField: OracleRepr,
+{
+    let cv = sw_crv::<P>(name);
+    let w = words(&cv.f);
+    out.push(Rel::new(format!("sw-from-x/{}", name), cases, w, move |t, o| sw_rel::<P>(&cv, t, o)).shrink_iters(400));
+}
+
+fn te_rels<P: TECurveConfig>(out: &mut Vec<Rel>, name: &str, cases: u32)
+where
+    P::BaseField: OracleRepr,
+{
+    let cv = te_crv::<P>(name);
+    let w = words(&cv.f);
+    out.push(Rel::new(format!("te-from-y/{}", name), cases, w, move |t, o| te_rel::<P>(&cv, t, o)).shrink_iters(400));
+}
+
+// ---------------------------------------------------------------------------------------------
+// registration
+// ---------------------------------------------------------------------------------------------
+
+type Pf<C, const N: usize> = Fp<MontBackend<C, N>, N>;
+
+fn relations(tier: Tier) -> Vec<Rel> {
+    let mut out = Vec::new();
+    let q = |n: u32| tier.pick(n, n * 25);
+
+    // expensive extension fields first
+    macro_rules! ext {
+        ($ty:ty, $name:expr, $cases:expr) => {
+            field_rels::<$ty>(&mut out, $name, q($cases));
+        };
+    }
+    ext!(f6q::Fp6<ark_bw6_761::Fq6Config>, "bw6_761.Fq6", 24);
+    ext!(f6q::Fp6<ark_bw6_767::Fq6Config>, "bw6_767.Fq6", 24);
+    ext!(f6q::Fp6<ark_cp6_782::Fq6Config>, "cp6_782.Fq6", 24);
+    ext!(f6q::Fp6<ark_mnt6_753::Fq6Config>, "mnt6_753.Fq6", 24);
+    ext!(f6q::Fp6<ark_mnt6_298::Fq6Config>, "mnt6_298.Fq6", 120);
+    ext!(Fp4<ark_mnt4_753::Fq4Config>, "mnt4_753.Fq4", 40);
+    ext!(Fp4<ark_mnt4_298::Fq4Config>, "mnt4_298.Fq4", 240);
+    ext!(Fp3<ark_bw6_761::Fq3Config>, "bw6_761.Fq3", 60);
+    ext!(Fp3<ark_bw6_767::Fq3Config>, "bw6_767.Fq3", 60);
+    ext!(Fp3<ark_cp6_782::Fq3Config>, "cp6_782.Fq3", 60);
+    ext!(Fp3<ark_mnt6_753::Fq3Config>, "mnt6_753.Fq3", 60);
+    ext!(Fp3<ark_test_curves::mnt6_753::Fq3Config>, "test.mnt6_753.Fq3", 60);
+    ext!(Fp3<ark_mnt6_298::Fq3Config>, "mnt6_298.Fq3", 400);
+    ext!(Fp2<ark_mnt4_753::Fq2Config>, "mnt4_753.Fq2", 120);
+    ext!(Fp2<ark_mnt4_298::Fq2Config>, "mnt4_298.Fq2", 600);
+    ext!(Fp2<ark_bls12_381::Fq2Config>, "bls12_381.Fq2", 400);
+    ext!(Fp2<ark_bls12_377::Fq2Config>, "bls12_377.Fq2", 400);
+    ext!(Fp2<ark_bn254::Fq2Config>, "bn254.Fq2", 800);
+    ext!(Fp2<ark_test_curves::bls12_381::Fq2Config>, "test.bls12_381.Fq2", 400);
+
+    // curve-coordinate helpers on shipped curves
+    sw_rels::<ark_mnt6_753::g2::Config>(&mut out, "mnt6_753.G2", q(20));
+    sw_rels::<ark_cp6_782::g2::Config>(&mut out, "cp6_782.G2", q(20));
+    sw_rels::<ark_mnt4_753::g2::Config>(&mut out, "mnt4_753.G2", q(40));
+    sw_rels::<ark_mnt6_298::g2::Config>(&mut out, "mnt6_298.G2", q(150));
+    sw_rels::<ark_mnt4_298::g2::Config>(&mut out, "mnt4_298.G2", q(200));
+    sw_rels::<ark_bls12_381::g2::Config>(&mut out, "bls12_381.G2", q(200));
+    sw_rels::<ark_bls12_377::g2::Config>(&mut out, "bls12_377.G2", q(200));
+    sw_rels::<ark_bn254::g2::Config>(&mut out, "bn254.G2", q(300));
+    sw_rels::<ark_test_curves::bls12_381::g2::Config>(&mut out, "test.bls12_381.G2", q(200));
+    sw_rels::<ark_bw6_761::g1::Config>(&mut out, "bw6_761.G1", q(200));
+    sw_rels::<ark_bw6_761::g2::Config>(&mut out, "bw6_761.G2", q(200));
+    sw_rels::<ark_mnt4_753::g1::Config>(&mut out, "mnt4_753.G1", q(200));
+    sw_rels::<ark_bls12_381::g1::Config>(&mut out, "bls12_381.G1", q(500));
+    sw_rels::<ark_bls12_377::g1::Config>(&mut out, "bls12_377.G1", q(400));
+    sw_rels::<ark_bn254::g1::Config>(&mut out, "bn254.G1", q(800));
+    sw_rels::<ark_mnt4_298::g1::Config>(&mut out, "mnt4_298.G1", q(600));
+    sw_rels::<ark_mnt6_298::g1::Config>(&mut out, "mnt6_298.G1", q(600));
+    sw_rels::<ark_secp256k1::Config>(&mut out, "secp256k1", q(800));
+    sw_rels::<ark_pallas::PallasConfig>(&mut out, "pallas", q(600));
+    sw_rels::<ark_grumpkin::GrumpkinConfig>(&mut out, "grumpkin", q(600));
+    sw_rels::<ark_ed_on_bls12_381::JubjubConfig>(&mut out, "jubjub.sw", q(600));
+    sw_rels::<ark_ed_on_bls12_381_bandersnatch::BandersnatchConfig>(&mut out, "bandersnatch.sw", q(600));
+    te_rels::<ark_ed_on_bls12_381::JubjubConfig>(&mut out, "jubjub", q(600));
+    te_rels::<ark_ed_on_bls12_381_bandersnatch::BandersnatchConfig>(&mut out, "bandersnatch", q(600));
+    te_rels::<ark_ed25519::EdwardsConfig>(&mut out, "ed25519", q(600));
+    te_rels::<ark_ed_on_bn254::EdwardsConfig>(&mut out, "ed_on_bn254", q(600));
+    te_rels::<ark_ed_on_bls12_377::EdwardsConfig>(&mut out, "ed_on_bls12_377", q(600));
+    te_rels::<ark_ed_on_mnt4_298::EdwardsConfig>(&mut out, "ed_on_mnt4_298", q(500));
+    te_rels::<ark_ed_on_cp6_782::EdwardsConfig>(&mut out, "ed_on_cp6_782", q(400));
+    te_rels::<ark_test_curves::ed_on_bls12_381::EdwardsConfig>(&mut out, "test.ed_on_bls12_381", q(600));
+
+    // shipped prime fields (their own GENERATOR / TWO_ADIC_ROOT_OF_UNITY constants)
+    macro_rules! shipped {
+        ($cfg:ty, $n:expr, $name:expr, $cases:expr) => {
+            field_rels::<Pf<$cfg, $n>>(&mut out, $name, q($cases));
+        };
+    }
+    shipped!(ark_bw6_761::FqConfig, 12, "bw6_761.Fq", 300);
+    shipped!(ark_mnt4_753::FqConfig, 12, "mnt4_753.Fq", 300);
+    shipped!(ark_mnt4_753::FrConfig, 12, "mnt4_753.Fr", 300);
+    shipped!(ark_bls12_381::FqConfig, 6, "bls12_381.Fq", 1000);
+    shipped!(ark_bls12_381::FrConfig, 4, "bls12_381.Fr", 1500);
+    shipped!(ark_bls12_377::FqConfig, 6, "bls12_377.Fq", 1000);
+    shipped!(ark_bls12_377::FrConfig, 4, "bls12_377.Fr", 1500);
+    shipped!(ark_bn254::FqConfig, 4, "bn254.Fq", 1500);
+    shipped!(ark_bn254::FrConfig, 4, "bn254.Fr", 1500);
+    shipped!(ark_mnt6_298::FqConfig, 5, "mnt6_298.Fq", 1000);
+    shipped!(ark_secp256k1::FqConfig, 4, "secp256k1.Fq", 1500);
+    shipped!(ark_secp256k1::FrConfig, 4, "secp256k1.Fr", 1500);
+    shipped!(ark_pallas::FqConfig, 4, "pallas.Fq", 1500);
+    shipped!(ark_pallas::FrConfig, 4, "pallas.Fr", 1500);
+    shipped!(ark_ed25519::FqConfig, 4, "ed25519.Fq", 1500);
+    shipped!(ark_ed25519::FrConfig, 4, "ed25519.Fr", 1500);
+    shipped!(ark_test_curves::bn384_small_two_adicity::FqConfig, 6, "test.bn384.Fq", 1000);
+    shipped!(ark_test_curves::bn384_small_two_adicity::FrConfig, 6, "test.bn384.Fr", 1000);
+
+    // the zoo: every field (two-adicity ladder A1..A47, p = 3 mod 4, no spare bit, hand-written configurations)
+    macro_rules! zoo {
+        ($ty:ty, $cfg:ty, $n:expr, $name:expr, $g:expr, $s:expr) => {
+            field_rels::<$ty>(&mut out, &format!("zoo.{}", $name), q(if $n <= 1 { 2500 } else if $n <= 4 { 1500 } else if $n <= 8 { 700 } else { 300 }));
+        };
+    }
+    vh_core::for_each_zoo_field!(zoo);
+    macro_rules! tiny {
+        ($ty:ty, $cfg:ty, $n:expr, $name:expr, $g:expr, $s:expr) => {
+            field_all::<$ty>(&mut out, &format!("zoo.{}", $name));
+        };
+    }
+    vh_core::for_each_tiny_field!(tiny);
+
+    // toy towers: every element
+    use toy_cfg::*;
+    field_all::<Fp2<Q7>>(&mut out, "toy.Fp2_7");
+    field_all::<Fp2<Q13>>(&mut out, "toy.Fp2_13");
+    field_all::<Fp3<C7>>(&mut out, "toy.Fp3_7");
+    field_all::<Fp3<C13>>(&mut out, "toy.Fp3_13");
+    field_all::<Fp4<Q4_13>>(&mut out, "toy.Fp4_13");
+    if tier == Tier::Thorough {
+        field_all::<f6q::Fp6<S6q_13>>(&mut out, "toy.Fp6q_13");
+    }
+    field_rels::<f6q::Fp6<S6q_13>>(&mut out, "toy.Fp6q_13", q(2000));
+    field_rels::<Fp4<Q4_13>>(&mut out, "toy.Fp4_13", q(2000));
+    field_rels::<Fp3<C13>>(&mut out, "toy.Fp3_13", q(2000));
+    field_rels::<Fp2<Q13>>(&mut out, "toy.Fp2_13", q(1000));
+
+    // toy curves: every x / every y
+    macro_rules! toysw {
+        ($cfg:ty, $name:expr, $p:expr, $a:expr, $b:expr, $h:expr, $r:expr, $big:expr) => {{
+            let cv = sw_crv::<$cfg>(&format!("toy.{}", $name));
+            out.push(
+                Rel::new(format!("sw-from-x-all/toy.{}", $name), 0, 1, move |t, o| {
+                    let xe = Elem::P(BigUint::from(t.below($p)));
+                    o.show(|| format!("{}: x={}", cv.name, show(&xe)));
+                    sw_on::<$cfg>(&cv, &xe, o)
+                })
+                .exhaustive(move || all_tapes($p, 1)),
+            );
+        }};
+    }
+    vh_core::for_each_toy_sw!(toysw);
+    macro_rules! toyte {
+        ($cfg:ty, $name:expr, $p:expr, $a:expr, $d:expr, $h:expr, $r:expr, $complete:expr, $big:expr) => {{
+            let cv = te_crv::<$cfg>(&format!("toy.{}", $name));
+            out.push(
+                Rel::new(format!("te-from-y-all/toy.{}", $name), 0, 1, move |t, o| {
+                    let ye = Elem::P(BigUint::from(t.below($p)));
+                    o.show(|| format!("{}: y={}", cv.name, show(&ye)));
+                    te_on::<$cfg>(&cv, &ye, o)
+                })
+                .exhaustive(move || all_tapes($p, 1)),
+            );
+        }};
+    }
+    vh_core::for_each_toy_te!(toyte);
+    out
+}
+
 fn main() {
-    eprintln!("C11: check not implemented");
-    std::process::exit(2);
+    vh_core::engine::main(PropSpec {
+        id: "C11",
+        rule: "x is decoded from a proptest tape into one of: 0, 1, -1, an edge-biased arbitrary element, a square s^2, n*s^2 for a quadratic non-residue n found by the oracle, zeta^j and zeta^j*s^2 for zeta = n^t of order exactly 2^s (q-1 = 2^s t; j = 1, 2, 2^m, odd, arbitrary: worst-case Tonelli-Shanks rounds), an element of a proper subfield of an extension; over 90 zoo prime fields (two-adicity 1..47, p = 3 mod 4, no spare bit, hand-written configs), 18 shipped prime fields, every shipped Fp2/Fp3/Fp4/Fp6-2over3, toy towers; tiny fields and toy towers exhaustively. Whether x is a square is decided exactly by Euler's criterion x^((q-1)/2) (BigUint modpow in prime fields; in towers the inner power x^(1+p+..+p^(d-1)) through the schoolbook oracle Frobenius); a reported root must square to x under the oracle product. Curve helpers: x (y) = 0, the generator's coordinate, neighbours of it, arbitrary; toy curves all x / all y; the curve equation is evaluated by the oracle and the pair must be {r, -r}, on the curve and sorted in the documented lexicographic order. A case is non-trivial when x is outside {0,1} and is a non-residue, lies in a proper subfield of an extension, or has 2-power order; for helpers when the input is off the curve or yields a 2-torsion/ x = 0 solution. distinct = distinct decoded choice sequences.",
+        assumptions: &[
+            "num-bigint arithmetic is correct (oracle)",
+            "tower multiplication/Frobenius oracle of C02 (schoolbook, NONRESIDUE constants only)",
+            "fields without a configured algorithm (Fp6-3over2, Fp12: SQRT_PRECOMP = None, `sqrt` is `unimplemented!()`) are out of scope and never called",
+            "zoo configurations above 64 bits declare the smallest quadratic non-residue as `generator` (all Tonelli-Shanks needs)",
+        ],
+        relations,
+    })
 }
